@@ -7,6 +7,7 @@ requests (space separated; `-` = empty list; sections introduced by single capit
   c17.glyf  <flags> <nout> M <new old>… D <per kept glyph: - | hex | E>…
   c17.glyph <flags> M <old new>… D <hex>
   c17.trim  <numCoords> <hex>
+  c17.comps <hex>            component glyph ids read-fonts reports for one glyph record
   c17.closure <rem> <ops> <gid> G <comps> S <set>…
 responses: see the `fmt*` functions (identical strings are produced by harness/src/bin/c17.rs)
 -/
@@ -95,6 +96,9 @@ def handle (cmd : String) (args : List String) : Option String :=
     let map ← pairList m
     let [h] := d | none
     some (fmtGlyph (subsetGlyphBytes flags (fun old => lookupNat old map) (← parseHex? h)))
+  | "c17.comps" => do
+    let [h] := args | none
+    some (joinNats (componentsOfRecord (← parseHex? h)))
   | "c17.trim" => do
     let [n, h] := args | none
     some (toString (trimSimpleGlyphPadding (← parseHex? h) (← parseNat? n)))
